@@ -49,23 +49,23 @@ type rdbKeySpec struct {
 	Key  string     `json:"key"`
 	Case string     `json:"case"` // ref catalogue case name
 	Enc  ref.RDBEnc `json:"enc"`
-	Exp  string     `json:"exp"`  // "" none | "future" | "past" | "futsec" | "pastsec" (seconds opcode)
-	Idle int64      `json:"idle"` // < 0 absent
-	Freq int        `json:"freq"` // < 0 absent
+	Exp  string     `json:"exp"`            // "" none | "future" | "past" | "futsec" | "pastsec" (seconds opcode)
+	Idle int64      `json:"idle"`           // < 0 absent
+	Freq int        `json:"freq"`           // < 0 absent
 	Drop bool       `json:"drop,omitempty"` // the scenario's author expects the configured filter to drop this key (cross-checked)
 }
 
 type rdbCfg struct {
-	Restore  bool   `json:"restore"`  // ReplayRdbEnableRestore
-	BulkLen  int    `json:"bulklen"`  // MaxProtoBulkLen
-	Parallel int    `json:"parallel"` // ReplayRdbParallel
-	DbMode   string `json:"dbmode"`   // "id" | "map31" | "all0"
-	Resume   bool   `json:"resume"`   // EnableResumeFromBreakPoint (final checkpoint written to the target)
-	Policy   string `json:"policy,omitempty"`   // KeyExists: "" = replace | ignore | error
-	Bisync   bool   `json:"bisync,omitempty"`   // bidirectional replay (rdbReplayBisync, one MULTI/EXEC unit per entry)
-	PipeSize int    `json:"pipesize,omitempty"` // config.RdbPipeSize for this execution (0 = shipped value)
-	Filter   string `json:"filter,omitempty"`   // "" (db 5 + prefix flt: black-listed) | prefix-black | prefix-white | slot-white | db-black
-	FilterDB int    `json:"filterdb,omitempty"` // the black-listed database of Filter db-black
+	Restore   bool   `json:"restore"`             // ReplayRdbEnableRestore
+	BulkLen   int    `json:"bulklen"`             // MaxProtoBulkLen
+	Parallel  int    `json:"parallel"`            // ReplayRdbParallel
+	DbMode    string `json:"dbmode"`              // "id" | "map31" | "all0"
+	Resume    bool   `json:"resume"`              // EnableResumeFromBreakPoint (final checkpoint written to the target)
+	Policy    string `json:"policy,omitempty"`    // KeyExists: "" = replace | ignore | error
+	Bisync    bool   `json:"bisync,omitempty"`    // bidirectional replay (rdbReplayBisync, one MULTI/EXEC unit per entry)
+	PipeSize  int    `json:"pipesize,omitempty"`  // config.RdbPipeSize for this execution (0 = shipped value)
+	Filter    string `json:"filter,omitempty"`    // "" (db 5 + prefix flt: black-listed) | prefix-black | prefix-white | slot-white | db-black
+	FilterDB  int    `json:"filterdb,omitempty"`  // the black-listed database of Filter db-black
 	TargetVer string `json:"targetver,omitempty"` // Redis.Version of the target; "" = 7.2.0 without version gating in the double (legacy scenarios)
 	HashTag   bool   `json:"hashtag,omitempty"`   // ReplaceHashTag: the first "{" and the first "}" of a key name are removed on the target
 }
@@ -237,23 +237,23 @@ type rdbScenario struct {
 
 // rdbExpect is what the oracle wants to find for one snapshot key.
 type rdbExpect struct {
-	Spec     rdbKeySpec
-	Case     *ref.RDBCase
-	Filtered bool
-	TargetDB int
-	TargetKey string       // name on the target (differs from Spec.Key with ReplaceHashTag)
-	Value    *redisd.Value // content (ExpireAt = source's absolute expiry, 0 = none)
-	Body     []byte        // serialized value bytes a RESTORE payload must carry
-	Past     bool
+	Spec      rdbKeySpec
+	Case      *ref.RDBCase
+	Filtered  bool
+	TargetDB  int
+	TargetKey string        // name on the target (differs from Spec.Key with ReplaceHashTag)
+	Value     *redisd.Value // content (ExpireAt = source's absolute expiry, 0 = none)
+	Body      []byte        // serialized value bytes a RESTORE payload must carry
+	Past      bool
 }
 
 type rdbBuilt struct {
-	File   []byte
-	Expect []*rdbExpect
-	ByKey  map[string]*rdbExpect
+	File     []byte
+	Expect   []*rdbExpect
+	ByKey    map[string]*rdbExpect
 	ByTarget map[string]*rdbExpect // by name on the target
-	Allow  map[string]bool // "<db>/<key>" the target may hold besides the snapshot's keys (pre-populated by a check)
-	TypeAt []int           // file offsets of the value type bytes, in file order
+	Allow    map[string]bool       // "<db>/<key>" the target may hold besides the snapshot's keys (pre-populated by a check)
+	TypeAt   []int                 // file offsets of the value type bytes, in file order
 }
 
 var rdbCaseCache = map[string]*ref.RDBCase{}
@@ -401,14 +401,14 @@ func rdbBuild(scn rdbScenario, now int64) (*rdbBuilt, error) {
 
 // rdbHooks let other checks intervene without copying the driver.
 type rdbHooks struct {
-	Prepare   func(srv *redisd.Server)                       // before Send starts (pre-population, fault plan)
+	Prepare   func(srv *redisd.Server)                         // before Send starts (pre-population, fault plan)
 	BeforeReq func(srv *redisd.Server, idx int, argv [][]byte) // before request idx (0-based, global) is processed
-	Feed      func(g *gate, file []byte)                     // how the bytes reach the reader (default: all, then EOF)
-	OnStart   func(cancel context.CancelFunc)                // receives the cancel function of the replay context
-	Picker    vsel.Picker                                    // decides rewritten selects with several ready cases (builds with the select transform)
-	MaxReq    int                                            // give up (Runaway) after this many target requests (0 = 300000)
-	Preempt   *preemptCtl                                    // preemption plan (builds with the yield transform): armed while Send runs, settle() replaces synctest.Wait()
-	NoPark    bool                                           // the target answers every request at once (it keeps up with the parser) instead of being stepped at quiescence
+	Feed      func(g *gate, file []byte)                       // how the bytes reach the reader (default: all, then EOF)
+	OnStart   func(cancel context.CancelFunc)                  // receives the cancel function of the replay context
+	Picker    vsel.Picker                                      // decides rewritten selects with several ready cases (builds with the select transform)
+	MaxReq    int                                              // give up (Runaway) after this many target requests (0 = 300000)
+	Preempt   *preemptCtl                                      // preemption plan (builds with the yield transform): armed while Send runs, settle() replaces synctest.Wait()
+	NoPark    bool                                             // the target answers every request at once (it keeps up with the parser) instead of being stepped at quiescence
 }
 
 type rdbOutcome struct {
@@ -930,6 +930,11 @@ func rdbPath(e *rdbExpect, scn rdbScenario, out *rdbOutcome) string {
 			return "restore"
 		}
 	}
+	for _, q := range out.Srv.ExecLog() {
+		if q.Name() == "restore" && len(q.Argv) > 1 && string(q.Argv[1]) == e.TargetKey && strings.Contains(q.Reply, "Bad data format") {
+			return "bad-data-fallback" // the target did not know the encoding, the tool fell back to native commands
+		}
+	}
 	if scn.ChunkAt > 0 && e.Case.Val.Type == 'h' && e.Spec.Enc.Kind == "table" {
 		return "chunked"
 	}
@@ -1001,6 +1006,26 @@ func rdbOracle(prefix string, scn rdbScenario, built *rdbBuilt, out *rdbOutcome)
 		return mc.Violation("replay of a valid snapshot did not finish (no target request pending, 60 virtual seconds passed)", prefix+":hang:"+shape, detail(map[string]interface{}{"leak": out.LeakCheck}))
 	}
 	if out.Err != nil {
+		if strings.Contains(out.Err.Error(), "Bad data format") {
+			shape = "bad-data-format"
+			// Bidirectional replay has no native-command fallback: against a target that does not know the
+			// value's encoding it stops with a reported error. The property speaks about a replay that
+			// COMPLETES, so a reported refusal is accepted - as long as it is not recorded as complete.
+			refused := false
+			for _, q := range execLog {
+				if q.Name() == "restore" && strings.Contains(q.Reply, "Bad data format") {
+					refused = true
+				}
+			}
+			if scn.Cfg.Bisync && scn.Cfg.TargetVer != "" && refused {
+				if rdbCpWritten(execLog) {
+					return mc.Violation("the replay failed (target does not know the encoding) but the snapshot offset was recorded as resume position", prefix+":refusal-recorded-complete", detail(nil))
+				}
+				r := mc.OK(mc.Hash(append(logStr, "refused")...), true, out.Events)
+				r.Detail = rdbRefusedOlderTarget
+				return r
+			}
+		}
 		return mc.Violation("Send returned an error on a valid snapshot", prefix+":send-error:"+shape, detail(nil))
 	}
 	// keys that must be present now
@@ -1018,6 +1043,10 @@ func rdbOracle(prefix string, scn rdbScenario, built *rdbBuilt, out *rdbOutcome)
 			continue
 		}
 		if got == nil {
+			if e.TargetKey != e.Spec.Key && srv.Get(e.TargetDB, e.Spec.Key) != nil {
+				return mc.Violation("ReplaceHashTag: the value was written under the source key name, not under the rewritten one", prefix+":hashtag-not-applied",
+					detail(map[string]interface{}{"key": e.Spec.Key, "target_key": e.TargetKey, "path": path}))
+			}
 			for db := 0; db < 16; db++ {
 				if db != e.TargetDB && srv.Get(db, e.TargetKey) != nil {
 					return mc.Violation("a snapshot key was written into another database than the mapped one", prefix+":wrong-database",
@@ -1068,6 +1097,10 @@ func rdbOracle(prefix string, scn rdbScenario, built *rdbBuilt, out *rdbOutcome)
 			if strings.HasPrefix(k, "redis-gunyu") || strings.HasPrefix(k, "/redis-gunyu") {
 				continue // checkpoint / bisync bookkeeping namespace
 			}
+			if e := built.ByKey[k]; e != nil && e.TargetKey != k && !built.Allow[fmt.Sprintf("%d/%s", db, k)] {
+				return mc.Violation("ReplaceHashTag: the value was written under the source key name, not under the rewritten one", prefix+":hashtag-not-applied",
+					detail(map[string]interface{}{"key": k, "target_key": e.TargetKey, "db": db}))
+			}
 			if !want[fmt.Sprintf("%d/%s", db, k)] && !built.Allow[fmt.Sprintf("%d/%s", db, k)] {
 				return mc.Violation("the target holds a key the snapshot does not put there", prefix+":surplus-key", detail(map[string]interface{}{"key": k, "db": db}))
 			}
@@ -1102,6 +1135,30 @@ func rdbOracle(prefix string, scn rdbScenario, built *rdbBuilt, out *rdbOutcome)
 		sort.Strings(obs)
 	}
 	return mc.OK(mc.Hash(obs...), touched, out.Events)
+}
+
+// rdbRefusedOlderTarget marks (in Result.Detail) an accepted execution in which a bidirectional replay
+// reported an error because the target does not know the value's encoding.
+const rdbRefusedOlderTarget = "reported-refusal-older-target"
+
+// rdbCpWritten reports whether the target executed a checkpoint write that carries the snapshot's offset
+// as resume position.
+func rdbCpWritten(log []*redisd.Req) bool {
+	want := fmt.Sprintf("%d", rdbSnapOffset)
+	for _, r := range log {
+		if !r.Executed || r.Failed || r.Name() != "hset" || len(r.Argv) < 4 {
+			continue
+		}
+		if !strings.HasPrefix(string(r.Argv[1]), "redis-gunyu-checkpoint") {
+			continue
+		}
+		for i := 2; i+1 < len(r.Argv); i += 2 {
+			if string(r.Argv[i]) == rdbRunID+"_offset" && string(r.Argv[i+1]) == want {
+				return true
+			}
+		}
+	}
+	return false
 }
 
 func bodyOf(e *rdbExpect) []byte {
